@@ -625,9 +625,11 @@ class t2data(object):
         mops = self.parameter['_option_str'].rstrip().ljust(24).replace(' ', '0')
         self.parameter['option'] = np.array([0] + [int(mop) for mop in mops], int8)
         infile.read_value_line(self.parameter, 'param2')
-        if (self.parameter['print_block'] is not None) and \
-           (self.parameter['print_block'].strip() == ''):
-            self.parameter['print_block'] = None
+        if self.parameter['print_block'] is not None:
+            if self.parameter['print_block'].strip() == '':
+                self.parameter['print_block'] = None
+            else:
+                self.parameter['print_block'] = fix_blockname(self.parameter['print_block'])
         self.read_timesteps(infile)
         infile.read_value_line(self.parameter, 'param3')
         for val in infile.read_values('default_incons'):
